@@ -735,6 +735,46 @@ def run(ctx):
         subs = g.symbol_map(f)
         for ms in (False, True):
             cases.append((Case(f, dict(subs), {}, ms, env_ms, "symbols"), "sa"))
+    # directed: interpretations whose formal parameters are symbols of the formula and whose actual
+    # arguments mention the *other* formal parameters (the instantiation is simultaneous)
+    for i in range(40 if quick else 500):
+        env_ms = rng.random() < 0.25
+        g = gens[env_ms]
+        m = g.mgr
+        fs = rng.choice([f_ for f_ in g.uni.funs if len(f_.symbol_type().param_types) >= 2])
+        ft = fs.symbol_type()
+        formals, ok = [], True
+        for t in ft.param_types:
+            c = [x_ for x_ in g.uni.syms.get(t, []) if x_ not in formals]
+            if not c:
+                ok = False
+                break
+            formals.append(rng.choice(c))
+        if not ok:
+            continue
+
+        def over(ty, syms):
+            """a small term of type ty that mentions the given symbols when their type allows"""
+            same = [x_ for x_ in syms if x_.symbol_type() == ty]
+            base = rng.choice(same) if same else g.fg_small.gen(ty, 1)
+            if ty.is_int_type():
+                return m.Plus(base, rng.choice([m.Int(1)] + [x_ for x_ in syms if x_.symbol_type().is_int_type()]))
+            if ty.is_bool_type():
+                others = [x_ for x_ in syms if x_.symbol_type().is_bool_type()]
+                return m.Or(base, m.Not(rng.choice(others))) if others and rng.random() < 0.5 else base
+            if ty.is_bv_type():
+                return m.BVAdd(base, rng.choice(same)) if same and rng.random() < 0.5 else base
+            return base
+        body = over(ft.return_type, formals)
+        if rng.random() < 0.5:
+            body = m.Ite(g.bool_over(formals), body, over(ft.return_type, list(reversed(formals))))
+        actuals = [over(t, [y_ for y_ in formals if y_ is not x_] or formals) for x_, t in zip(formals, ft.param_types)]
+        app = m.Function(fs, actuals)
+        rt = ft.return_type
+        atom = app if rt.is_bool_type() else m.Equals(app, g.fg_small.gen(rt, 1))
+        f = m.And(atom, g.fg_small.gen(BOOL, 2)) if rng.random() < 0.6 else m.Not(atom)
+        for ms in (False, True):
+            cases.append((Case(f, {}, {fs: (formals, body)}, ms, env_ms, "interp+formals-in-actuals"), "k"))
     # directed: identity pairs on compound keys with other keys inside them
     for i in range(120 if quick else 1500):
         env_ms = rng.random() < 0.25
